@@ -89,5 +89,12 @@ class BlockComment(base.RawTokenModel, _value_properties.RWValueWithIndent[str],
             for line in _splitlines(value)
         )
 
+    def reattach(self, token_store: base.TokenStore, token_transformer: base.TokenTransformer = base.IDENTITY_TOKEN_TRANSFORMER) -> Self:
+        # Only children of a model or a list are reattached: a comment given to one (list insertion, raw_*_comment
+        # assignment) is owned from then on, whatever its flag said while it was free.
+        token = super().reattach(token_store, token_transformer)
+        token.claimed = True
+        return token
+
     def _clone(self: 'BlockComment') -> 'BlockComment':
         return type(self)(self.raw_text, self.indent, self.value, claimed=self.claimed)
